@@ -1,4 +1,4 @@
 SPECIFICATION TraceSpec
-INVARIANTS HarnessProjection HarnessQuorumClass C18_MintQuorum C18_NonceOnce C18_MintAmounts
+INVARIANTS HarnessProjection HarnessQuorumClass C18_MintQuorum C18_NonceOnce C18_MintAmounts C18_MintAmountsKnown
 POSTCONDITION Accepted
 CHECK_DEADLOCK FALSE
